@@ -28,6 +28,9 @@ tvars == <<l, u, stack, viol, drift>>
 ObsSt(s) == [s EXCEPT !.eons = SeqToSet(s.eons), !.dkg = SeqToSet(s.dkg), !.shared = SeqToSet(s.shared)]
 Strip(o) == [blk |-> o.blk, ids |-> o.ids, msg |-> o.msg]
 
+(* the HTTP status the gate must answer with *)
+ManualCode(op) == IF op.k # "manual" THEN 0 ELSE IF WriteEnabled(u) THEN 200 ELSE 403
+
 StepViol(line, top) ==
     (IF line.panic # "" THEN {"C02_NoPanic"} ELSE {}) \cup
     (IF \E k \in DOMAIN line.out : ~line.out[k].sorted THEN {"C02_Sorted"} ELSE {}) \cup
@@ -35,6 +38,7 @@ StepViol(line, top) ==
 
 SpecAllows(line, top) ==
     /\ line.panic = "" /\ line.err = ""
+    /\ line.code = ManualCode(line.op)
     /\ Enabled(u, top.st, line.op)
     /\ LET r == Apply(u, top.st, line.op) IN
        /\ r.st = ObsSt(line.st)
@@ -50,8 +54,10 @@ TNext ==
        CASE line.k = "init" ->
               /\ u' = line.u
               /\ stack' = <<[st |-> ObsSt(line.st), gh |-> GhostInit]>>
-              /\ drift' = drift \cup (IF ObsSt(line.st) = InitSt THEN {} ELSE {l})
-              /\ UNCHANGED viol
+              /\ drift' = drift \cup (IF ObsSt(line.st) = InitSt /\ line.u.wd = WriteEnabledByDefault THEN {} ELSE {l})
+              (* manual_enabled_by_default: the configuration parsed through the repository's real
+                 config machinery from a file with HTTPEnabled = true and no HTTPReadOnly key *)
+              /\ viol' = viol \cup (IF line.u.wd THEN {<<l, "C02_ManualGated">>} ELSE {})
          [] line.k = "pop" ->
               /\ stack' = SubSeq(stack, 1, line.d + 1)
               /\ UNCHANGED <<u, viol, drift>>
